@@ -319,6 +319,7 @@ class Ctx:
         self.trace = []
         self.ghost = {}
         self.index_terms = []     # integer terms at which trigger-less hypotheses are instantiated
+        self.index_funcs = []     # Skolem functions whose applications denote indices (rank / hit / row-of functions)
 
     # ---- names -------------------------------------------------------------------
     def fresh_int(self, base="v"):
